@@ -1,6 +1,6 @@
 (* C05/C06 model driver.  One case per line:
      KN <which> <order> <interp 0|1> <prune t1,t2,..|-> <limit id,id,..|-|none> <fallback n/d,n/d,n/d|-> <corpus>
-   which  = S (kn_spec) | I (kn_impl, repaired) | B1 (final flush passes the actual count: F1) | B2 (</s> prunable: F12L)
+   which  = S (kn_spec) | I (kn_pipeline: repaired streaming AdjustCounts + bottom-up interpolation) | A (kn_impl) | B1 (final flush passes the actual count: F1) | B2 (</s> prunable: F12L)
    corpus = sentences separated by '|', word ids (hex) separated by ',' ; an empty sentence is the empty string; "." = no sentences.
    Answer: REFUSED <order>   or
            BUILT <counts ,> ; <discounts: n/d:n/d:n/d ,> ; <order 1 entries> ; <order 2 entries> ...
@@ -38,7 +38,7 @@ let show_result r =
       String.concat "," (List.map (fun ((a, b), c) -> string_of_q a ^ ":" ^ string_of_q b ^ ":" ^ string_of_q c) m.m_discounts) ^
       String.concat "" (List.map (fun l -> " ; " ^ String.concat " " (List.map (fun a ->
           gram_s a.a_gram ^ "=" ^ string_of_q a.a_prob ^ "=" ^ string_of_q a.a_bo) l)) m.m_orders)
-let flags w = match w with "I" -> (true, true) | "B1" -> (false, true) | "B2" -> (true, false) | "B12" -> (false, false) | _ -> failwith "which"
+let flags w = match w with "I" | "A" -> (true, true) | "B1" -> (false, true) | "B2" -> (true, false) | "B12" -> (false, false) | _ -> failwith "which"
 let show_entry e = gram_s e.e_gram ^ "=" ^ hex_of_n e.e_adj ^ "=" ^ (if e.e_marked then "1" else "0") ^ "=" ^ hex_of_n e.e_stat
 let show_stat s = String.concat "," (List.map hex_of_n [s.s_n1; s.s_n2; s.s_n3; s.s_n4; s.s_count; s.s_count_pruned])
 
@@ -49,6 +49,11 @@ let handle (line : string) : string =
       let n = nat_of_int (int_of_string order) in
       let o = parse_opts n prune limit interp fb in
       if which = "S" then show_result (kn_spec c n o)
+      else if which = "I" then
+        (match kn_pipeline c n o with
+         | Refused2 k -> show_result (Refused k)
+         | NoSuffix2 g -> "NOSUFFIX " ^ gram_s g
+         | Built2 m -> show_result (Built m))
       else let (fs, fe) = flags which in show_result (kn_impl_gen fs fe c n o)
   | "ADJ" :: which :: order :: prune :: limit :: rest ->
       let c = parse_corpus (match rest with [] -> "" | x :: _ -> x) in
